@@ -10,6 +10,11 @@ def build_dsl(spec, name="m"):
     from BPTK_Py import Model
     run = spec["run"]
     m = Model(starttime=float(run["start"]), stoptime=float(run["stop"]), dt=float(run["dt"]), name=name)
+    return m, populate(m, spec)
+
+
+def populate(m, spec):
+    """Create the spec's elements on an existing Model (used by file-based model classes, too)."""
     for pn, pts in spec.get("points", {}).items():
         m.points[pn] = [list(p) for p in pts]
     E = {}
@@ -28,7 +33,7 @@ def build_dsl(spec, name="m"):
                 el.equation = X.to_dsl(e["eq"], E, m)
         else:
             el.equation = X.to_dsl(e["eq"], E, m)
-    return m, E
+    return E
 
 
 RUNSPECS = [
